@@ -10,8 +10,11 @@ Import ListNotations.
 Open Scope N_scope.
 
 (** the driver's "expire" waits until every outstanding lease timer has fired *)
-(** [DNop]: a job run fails between two pages - no call reaches the dataset *)
-Inductive devent := DEv (e : event) | DExpireAll | DNop.
+(** [DNop]: a job run fails between two pages - no call reaches the dataset.
+    [DPause]: time passes, less than a lease (the driver sleeps half a lease): nothing fires, every running
+    timer is old from now on.  [DExpireOld]: time passes until the old timers' deadline, but not the younger
+    ones': the old timers fire (oldest first), the younger ones keep running. *)
+Inductive devent := DEv (e : event) | DExpireAll | DNop | DPause | DExpireOld.
 
 Record ostep := mkOstep {
   o_status : N;          (* 0 ok | 1 conflict 409 | 2 gone 410 | 3 bad request | 4 server error | 5 other | 6 job error | 9 panic *)
@@ -38,11 +41,17 @@ Definition canon (v : view) : view := fold_right insert_sorted [] v.
 
 Definition expire_all (s : state) : state := Nat.iter (length (timers s)) expire s.
 
+(** old timers are a prefix of [timers] (creation order; cancel removes the youngest, expiry the oldest) *)
+Definition old_count (s : state) : nat := length (filter snd (timers s)).
+Definition expire_old (s : state) : state := Nat.iter (old_count s) expire s.
+
 Definition dstep (v : variant) (e : devent) (s : state) : resp * state :=
   match e with
   | DEv e => step v e s
   | DExpireAll => (RNone, expire_all s)
   | DNop => (RNone, s)
+  | DPause => (RNone, age s)
+  | DExpireOld => (RNone, expire_old s)
   end.
 
 Fixpoint predict_from (v : variant) (h : list devent) (s : state) : list ostep :=
@@ -54,23 +63,37 @@ Fixpoint predict_from (v : variant) (h : list devent) (s : state) : list ostep :
   end.
 Definition predict (v : variant) (c : tcase) : list ostep := predict_from v (c_events c) init.
 
-Definition dsstep (e : devent) (g : spec) : resp * spec :=
+(** does [e] take or refresh the lease of an HTTP sync (a start, or a request of the active HTTP sync)? *)
+Definition refreshes (a : option sowner) (e : event) : bool :=
   match e with
-  | DEv e => sstep e g
-  | DExpireAll => sstep EExpire g
-  | DNop => (RNone, g)
+  | EHttp start id _ _ => start || (is_ghttp a && accepted a id)
+  | _ => false
+  end.
+
+(** S on driver histories: besides S's own state, whether the active HTTP sync has taken or refreshed its
+    lease since the last [DPause] - an HTTP sync silent since then expires at [DExpireOld] *)
+Definition dspec := (spec * bool)%type.
+Definition dsstep (e : devent) (gf : dspec) : resp * dspec :=
+  let (g, f) := gf in
+  match e with
+  | DEv e => let (r, g1) := sstep e g in (r, (g1, f || refreshes (g_active g) e))
+  | DExpireAll => let (r, g1) := sstep EExpire g in (r, (g1, f))
+  | DNop => (RNone, gf)
+  | DPause => (RNone, (g, false))
+  | DExpireOld => if f then (RNone, gf) else let (r, g1) := sstep EExpire g in (r, (g1, f))
   end.
 
 Definition is_some {A} (o : option A) : bool := match o with Some _ => true | None => false end.
 
-Fixpoint spredict_from (h : list devent) (g : spec) : list ostep :=
+Fixpoint spredict_from (h : list devent) (gf : dspec) : list ostep :=
   match h with
   | [] => []
-  | e :: h' => let (r, g1) := dsstep e g in
+  | e :: h' => let (r, gf1) := dsstep e gf in
+               let g1 := fst gf1 in
                mkOstep (resp_code r) (d_changes (g_data g1)) (is_some (g_active g1)) (canon (d_view (g_data g1)))
-               :: spredict_from h' g1
+                              :: spredict_from h' gf1
   end.
-Definition spredict (c : tcase) : list ostep := spredict_from (c_events c) sinit.
+Definition spredict (c : tcase) : list ostep := spredict_from (c_events c) (sinit, true).
 
 Definition cdb_eqb (a b : N * (N * bool)) : bool :=
   N.eqb (fst a) (fst b) && cd_eqb (snd a) (snd b).
